@@ -22,6 +22,13 @@ type SpecEnv struct {
 	depth   int
 	iter    *MapIter
 	entry   HeapView // when set: what entry(e) refers to (default: the entry of the function under contract)
+	pol     int      // +1: the expression stands where it has to be proved, -1: under one negation, 0: unknown / assumed
+}
+
+func (env *SpecEnv) withPol(p int) *SpecEnv {
+	n := *env
+	n.pol = p
+	return &n
 }
 
 func (env *SpecEnv) fail(f string, a ...any) {
@@ -109,7 +116,10 @@ func (env *SpecEnv) eval(e Expr) *Val {
 		n.cur = env.old
 		return n.eval(e.X)
 	case *EUn:
-		x := env.eval(e.X)
+		if e.Op == "!" {
+			return scalar(mkNot(env.withPol(-env.pol).eval(e.X).T), specBoolT)
+		}
+		x := env.withPol(0).eval(e.X)
 		switch e.Op {
 		case "!":
 			return scalar(mkNot(x.T), specBoolT)
@@ -125,7 +135,7 @@ func (env *SpecEnv) eval(e Expr) *Val {
 	case *EBin:
 		return env.binary(e)
 	case *ECond:
-		c := env.eval(e.C)
+		c := env.withPol(0).eval(e.C)
 		a, b := env.eval(e.A), env.eval(e.B)
 		return &Val{T: mkIte(c.T, a.T, b.T), Typ: a.Typ}
 	case *EField:
@@ -177,6 +187,14 @@ func (env *SpecEnv) eval(e Expr) *Val {
 		}
 		env.fail("slice expression on %s", x.T.Sort)
 	case *EQuant:
+		if !e.Forall && e.Witness != nil && env.pol > 0 {
+			// to be proved: the stated witness is used instead of the existential
+			w := env.withPol(0).eval(e.Witness)
+			t := env.specType(e.Vars[0].Type)
+			nv := *w
+			nv.Typ = t
+			return env.with(map[string]*Val{e.Vars[0].Name: &nv}).eval(e.Body)
+		}
 		vars := map[string]*Val{}
 		var decl []string
 		for _, q := range e.Vars {
@@ -408,10 +426,12 @@ func (env *SpecEnv) binary(e *EBin) *Val {
 	case "||":
 		return scalar(mkOr(env.eval(e.X).T, env.eval(e.Y).T), specBoolT)
 	case "==>":
-		return scalar(mkImp(env.eval(e.X).T, env.eval(e.Y).T), specBoolT)
+		return scalar(mkImp(env.withPol(-env.pol).eval(e.X).T, env.eval(e.Y).T), specBoolT)
 	case "<==>":
-		return scalar(mkEq(env.eval(e.X).T, env.eval(e.Y).T), specBoolT)
+		z := env.withPol(0)
+		return scalar(mkEq(z.eval(e.X).T, z.eval(e.Y).T), specBoolT)
 	case "in":
+		env = env.withPol(0)
 		k := env.eval(e.X)
 		m := env.eval(e.Y)
 		mt, ok := m.Typ.Underlying().(*types.Map)
@@ -421,6 +441,7 @@ func (env *SpecEnv) binary(e *EBin) *Val {
 		has, _ := env.ex.mapLoad(env.st, env.cur, mt, m.T, k.T)
 		return scalar(has, specBoolT)
 	}
+	env = env.withPol(0)
 	x, y := env.eval(e.X), env.eval(e.Y)
 	switch e.Op {
 	case "==", "!=":
@@ -509,7 +530,7 @@ func (env *SpecEnv) specCallEnv(sf *SpecFunc, e *ECall) (*SpecEnv, *SpecEnv) {
 	sfPkg := ex.ld.typesPkg(sf.Pkg)
 	tenv := &SpecEnv{ex: ex, pkg: sfPkg}
 	for i, p := range sf.Params {
-		v := env.eval(e.Args[i])
+		v := env.withPol(0).eval(e.Args[i])
 		pt := tenv.specType(p.Type)
 		nv := *v
 		if pt != refType {
@@ -520,7 +541,7 @@ func (env *SpecEnv) specCallEnv(sf *SpecFunc, e *ECall) (*SpecEnv, *SpecEnv) {
 		}
 		vars[p.Name] = &nv
 	}
-	n := &SpecEnv{ex: ex, st: env.st, vars: vars, cur: env.cur, old: env.old, pkg: sfPkg, nextOld: env.nextOld, depth: env.depth + 1}
+	n := &SpecEnv{ex: ex, st: env.st, vars: vars, cur: env.cur, old: env.old, pkg: sfPkg, nextOld: env.nextOld, depth: env.depth + 1, pol: env.pol, iter: env.iter, entry: env.entry}
 	return n, tenv
 }
 
@@ -549,6 +570,7 @@ func (env *SpecEnv) opaqueApp(sf *SpecFunc, callee *SpecEnv) *Val {
 		sorts := map[string]Sort{}
 		oldSorts := map[string]Sort{}
 		probe := *callee
+		probe.pol = 0 // the body is only scanned for the components it reads: no witness substitution
 		probe.cur = recView{callee.cur, &keys, sorts}
 		probe.old = recView{callee.old, &oldKeys, oldSorts}
 		saved := ex.revealAll
@@ -608,7 +630,7 @@ func (env *SpecEnv) conjuncts(e Expr, prefix string) []namedTerm {
 			// A ==> (B && C)  splits into  A ==> B, A ==> C
 			rs := env.conjuncts(x.Y, prefix)
 			if len(rs) > 1 {
-				a := env.eval(x.X)
+				a := env.withPol(-env.pol).eval(x.X)
 				var out []namedTerm
 				for _, r := range rs {
 					out = append(out, namedTerm{r.name, mkImp(a.T, r.t), x.X.String() + " ==> " + r.src})
